@@ -202,6 +202,12 @@ def strip_ows(v):
 
 
 def run(sim):
+    # process-global mutable state (header-name cache) must not leak between runs in a warm worker
+    try:
+        from twisted.web import http_headers as _hh
+        _hh._nameEncoder._canonicalHeaderCache.clear()
+    except AttributeError:
+        pass
     method = gen_method(sim)
     target = gen_target(sim)
     headers = gen_headers(sim)
